@@ -52,6 +52,20 @@ const POOL: &[&str] = &[
     "com.", "x.y.example.com.", "ww.example.com.", "example.org.", "w.example.com.",
 ];
 
+/// a tree of 56 names with shared suffixes (4 apexes x 13 children + apexes):
+/// more distinct names than the new compressor has entries (32), parents and
+/// children, so that long scripts force evictions and revisit evicted names
+fn tree_name(rng: &mut Rng) -> String {
+    const APEX: &[&str] = &["apex.example.", "other.", "third.net.", "deep.sub.zone.org."];
+    const CHILD: &[&str] = &["www", "mail", "ns1", "ns2", "ns3", "ns4", "ns5", "ns6", "ns7", "a.b", "x", "WWW", "c.a.b"];
+    let a = APEX[rng.below(APEX.len() as u64) as usize];
+    if rng.chance(1, 8) {
+        a.to_string()
+    } else {
+        format!("{}.{}", CHILD[rng.below(CHILD.len() as u64) as usize], a)
+    }
+}
+
 fn labels_of(s: &str) -> Value {
     let n = Name::<Vec<u8>>::from_str(s).unwrap();
     Value::Array(
@@ -214,6 +228,237 @@ fn judge(m: &[u8], want: &Value) -> Value {
     })
 }
 
+fn gen_long_script(rng: &mut Rng) -> Script {
+    let mut recs = vec![];
+    let mut sec = 1u8;
+    let n = 50 + rng.below(60);
+    // a working set that drifts through the tree: names are revisited soon
+    // after their first use and again much later
+    let mut recent: Vec<String> = vec![];
+    for i in 0..n {
+        if sec < 3 && i > 0 && i % (n / 3).max(1) == 0 {
+            sec += 1;
+        }
+        let mut pick = |rng: &mut Rng, recent: &mut Vec<String>| {
+            if !recent.is_empty() && rng.chance(1, 3) {
+                recent[rng.below(recent.len() as u64) as usize].clone()
+            } else {
+                let x = tree_name(rng);
+                recent.push(x.clone());
+                x
+            }
+        };
+        let owner = pick(rng, &mut recent);
+        let rd = match rng.below(4) {
+            0 => Rd::Ns(pick(rng, &mut recent)),
+            1 => Rd::Cname(pick(rng, &mut recent)),
+            2 => Rd::Mx(pick(rng, &mut recent)),
+            _ => Rd::A,
+        };
+        recs.push(Rec { sec, owner, rd });
+    }
+    Script { qname: tree_name(rng), recs }
+}
+
+/// More parent/child pairs than the new compressor has entries (32): a
+/// parent name is pushed, then a child of it, for 17..40 distinct parents
+/// with the same few child labels, through the owner (reversed-name) and
+/// the RDATA (forward-name) path; then some pairs are revisited.  Whatever
+/// the compressor evicts, a child must never be resolved under another
+/// parent.
+fn gen_evict_script(rng: &mut Rng) -> Script {
+    let childs = ["www", "ns1", "a.b"];
+    let c = childs[rng.below(3) as usize];
+    let shared = rng.chance(1, 2);
+    let npar = 17 + rng.below(24);
+    let parent = |i: u64| if shared { format!("p{}.example.", i) } else { format!("zone{}.", i) };
+    let mut recs = vec![];
+    let mut sec = 1u8;
+    let mut push_pair = |rng: &mut Rng, recs: &mut Vec<Rec>, sec: u8, i: u64| {
+        let p = parent(i);
+        let ch = format!("{}.{}", c, p);
+        match rng.below(3) {
+            0 => {
+                recs.push(Rec { sec, owner: p, rd: Rd::A });
+                recs.push(Rec { sec, owner: ch, rd: Rd::A });
+            }
+            1 => {
+                recs.push(Rec { sec, owner: p.clone(), rd: Rd::Ns(p) });
+                recs.push(Rec { sec, owner: "a.".into(), rd: Rd::Cname(ch) });
+            }
+            _ => {
+                recs.push(Rec { sec, owner: "a.".into(), rd: Rd::Ns(p) });
+                recs.push(Rec { sec, owner: ch.clone(), rd: Rd::Mx(ch) });
+            }
+        }
+    };
+    for i in 0..npar {
+        if sec < 3 && i > 0 && i % 14 == 0 {
+            sec += 1;
+        }
+        push_pair(rng, &mut recs, sec, i);
+    }
+    for _ in 0..rng.below(8) {
+        let i = rng.below(npar);
+        push_pair(rng, &mut recs, sec, i);
+    }
+    Script { qname: format!("{}.{}", c, parent(rng.below(npar))), recs }
+}
+
+/// One step of a fill script: the section, whether the push succeeded and
+/// the header counts afterwards.
+fn step_json(sec: u8, ok: bool, c: [u16; 4]) -> Value {
+    json!({"sec": sec, "ok": ok, "counts": [c[0], c[1], c[2], c[3]]})
+}
+
+/// "fill until full, then finish" on the established builder with a push
+/// limit: every push is attempted, failures included
+fn fill_old(s: &Script, limit: usize) -> (Vec<Value>, Vec<bool>, Vec<u8>) {
+    let name = |x: &str| Name::<Vec<u8>>::from_str(x).unwrap();
+    let mut mb = MessageBuilder::from_target(TreeCompressor::new(Vec::new())).unwrap();
+    mb.set_push_limit(limit);
+    let mut steps = vec![];
+    let mut accepted = vec![];
+    let cnt = |c: domain::base::header::HeaderCounts| [c.qdcount(), c.ancount(), c.nscount(), c.arcount()];
+    let mut qb = mb.question();
+    qb.header_mut().set_id(0x1234);
+    qb.header_mut().set_qr(true);
+    let ok = qb.push(Question::new(name(&s.qname), Rtype::A, Class::IN)).is_ok();
+    steps.push(step_json(0, ok, cnt(qb.counts())));
+    accepted.push(ok);
+    let ttl = Ttl::from_secs(60);
+    macro_rules! push {
+        ($b:expr, $r:expr) => {{
+            let ok = match &$r.rd {
+                Rd::Ns(n) => $b.push(Record::new(name(&$r.owner), Class::IN, ttl, Ns::new(name(n)))),
+                Rd::Cname(n) => $b.push(Record::new(name(&$r.owner), Class::IN, ttl, Cname::new(name(n)))),
+                Rd::Mx(n) => $b.push(Record::new(name(&$r.owner), Class::IN, ttl, Mx::new(10, name(n)))),
+                Rd::A => $b.push(Record::new(name(&$r.owner), Class::IN, ttl, A::from_octets(1, 2, 3, 4))),
+                Rd::Raw(k) => $b.push(Record::new(
+                    name(&$r.owner),
+                    Class::IN,
+                    ttl,
+                    UnknownRecordData::from_octets(Rtype::from_int(65280), vec![7u8; *k]).unwrap(),
+                )),
+            }
+            .is_ok();
+            steps.push(step_json($r.sec, ok, cnt($b.counts())));
+            accepted.push(ok);
+        }};
+    }
+    let mut ab = qb.answer();
+    for r in s.recs.iter().filter(|r| r.sec == 1) {
+        push!(ab, r);
+    }
+    let mut nb = ab.authority();
+    for r in s.recs.iter().filter(|r| r.sec == 2) {
+        push!(nb, r);
+    }
+    let mut xb = nb.additional();
+    for r in s.recs.iter().filter(|r| r.sec == 3) {
+        push!(xb, r);
+    }
+    (steps, accepted, xb.finish().into_target())
+}
+
+/// the same on the new builder with a buffer of `limit` octets
+fn fill_new(s: &Script, limit: usize) -> (Vec<Value>, Vec<bool>, Vec<u8>) {
+    let mut buffer = vec![0u8; limit.max(12)];
+    let mut compressor = NameCompressor::default();
+    let mut flags = HeaderFlags::default();
+    flags.set_qr(true);
+    let mut b = NewBuilder::new(&mut buffer, &mut compressor, U16::new(0x1234), flags);
+    let rn = |x: &str| RevNameBuf::from_str(x).unwrap();
+    let nn = |x: &str| NameBuf::from_str(x).unwrap();
+    let mut steps = vec![];
+    let mut accepted = vec![];
+    let cnt = |b: &NewBuilder<'_, '_>| {
+        let c = b.header().counts;
+        [c.questions.get(), c.answers.get(), c.authorities.get(), c.additionals.get()]
+    };
+    let ok = b
+        .push_question(&domain::new::base::Question { qname: rn(&s.qname), qtype: QType::A, qclass: QClass::IN })
+        .is_ok();
+    steps.push(step_json(0, ok, cnt(&b)));
+    accepted.push(ok);
+    for r in &s.recs {
+        let raw;
+        let holder: NameBuf = match &r.rd {
+            Rd::Ns(n) | Rd::Cname(n) | Rd::Mx(n) => nn(n),
+            _ => nn("a."),
+        };
+        let nref: &NewName = &holder;
+        let rdata: nrd::RecordData<'_, &NewName> = match &r.rd {
+            Rd::Ns(_) => nrd::RecordData::Ns(nrd::Ns { server: nref }),
+            Rd::Cname(_) => nrd::RecordData::CName(nrd::CName { name: nref }),
+            Rd::Mx(_) => nrd::RecordData::Mx(nrd::Mx { preference: U16::new(10), exchange: nref }),
+            Rd::A => nrd::RecordData::A(nrd::A { octets: [1, 2, 3, 4] }),
+            Rd::Raw(k) => {
+                raw = vec![7u8; *k];
+                nrd::RecordData::Unknown(RType::from(65280u16), <&nrd::UnknownRecordData>::parse_bytes(&raw).unwrap())
+            }
+        };
+        let t: u16 = match &r.rd {
+            Rd::Ns(_) => 2,
+            Rd::Cname(_) => 5,
+            Rd::Mx(_) => 15,
+            Rd::A => 1,
+            Rd::Raw(_) => 65280,
+        };
+        let rec = domain::new::base::Record {
+            rname: rn(&r.owner),
+            rtype: RType::from(t),
+            rclass: RClass::IN,
+            ttl: TTL::from(60),
+            rdata,
+        };
+        let ok = match r.sec {
+            1 => b.push_answer(&rec).is_ok(),
+            2 => b.push_authority(&rec).is_ok(),
+            _ => b.push_additional(&rec).is_ok(),
+        };
+        steps.push(step_json(r.sec, ok, cnt(&b)));
+        accepted.push(ok);
+    }
+    let msg = b.finish();
+    let mut out = vec![];
+    out.extend_from_slice(domain::new::base::wire::AsBytes::as_bytes(&msg.header));
+    out.extend_from_slice(&msg.contents);
+    (steps, accepted, out)
+}
+
+fn gen_fill_script(rng: &mut Rng) -> Script {
+    let pick = |rng: &mut Rng| POOL[rng.below(POOL.len() as u64) as usize].to_string();
+    let mut recs = vec![];
+    let mut sec = 1u8;
+    for _ in 0..(4 + rng.below(8)) {
+        if rng.chance(1, 3) && sec < 3 {
+            sec += 1;
+        }
+        let owner = pick(rng);
+        let rd = match rng.below(6) {
+            0 => Rd::Ns(pick(rng)),
+            1 => Rd::Cname(pick(rng)),
+            2 => Rd::Mx(pick(rng)),
+            3 => Rd::A,
+            // records of very different sizes: a large one fails, a small
+            // one behind it still fits
+            4 => Rd::Raw(rng.below(80) as usize),
+            _ => Rd::Raw(rng.below(8) as usize),
+        };
+        recs.push(Rec { sec, owner, rd });
+    }
+    Script { qname: pick(rng), recs }
+}
+
+/// the items of a script that were accepted (accepted[0] is the question)
+fn accepted_items(s: &Script, accepted: &[bool]) -> Value {
+    let all = expected_items(s);
+    Value::Array(
+        all.as_array().unwrap().iter().zip(accepted.iter()).filter(|(_, ok)| **ok).map(|(v, _)| v.clone()).collect(),
+    )
+}
+
 fn gen_script(rng: &mut Rng, big: bool) -> Script {
     let pick = |rng: &mut Rng| POOL[rng.below(POOL.len() as u64) as usize].to_string();
     let mut recs = vec![];
@@ -268,20 +513,42 @@ fn main() {
     let mut rng = Rng::new(seed);
     let mut tw = TraceWriter::create(path);
     for i in 0..n {
-        let big = i % 4 == 3;
-        let s = gen_script(&mut rng, big);
-        let want = expected_items(&s);
-        // the old builder's compressors have their own open finding for
-        // names first written beyond 16384 (C02 D_ptr_limit_c000): big scripts
-        // are built with the new builder only
-        let sides: Vec<(&str, Result<Vec<u8>, String>)> = if big {
-            vec![("new", catch_unwind(AssertUnwindSafe(|| build_new(&s, 40000))).unwrap_or(Err("panic".into())))]
+        // every sixth script fills a small buffer until pushes fail
+        if i % 6 == 5 {
+            let s = gen_fill_script(&mut rng);
+            let limit = 30 + rng.below(150) as usize;
+            for side in ["old", "new"] {
+                let r = catch_unwind(AssertUnwindSafe(|| if side == "old" { fill_old(&s, limit) } else { fill_new(&s, limit) }));
+                match r {
+                    Ok((steps, accepted, m)) => {
+                        let want = accepted_items(&s, &accepted);
+                        let j = if accepted[0] { judge(&m, &want) } else { json!({"old_reads": true, "new_reads": true}) };
+                        tw.event(json!({"ev": "fill", "side": side, "limit": limit, "steps": steps, "m": json_bytes(&m),
+                                        "items": want, "qok": accepted[0],
+                                        "old_reads": j["old_reads"], "new_reads": j["new_reads"]}));
+                    }
+                    Err(_) => tw.event(json!({"ev": "fillpanic", "side": side, "limit": limit,
+                                              "script": format!("{:?}", s).chars().take(600).collect::<String>()})),
+                }
+            }
+            continue;
+        }
+        let big = i % 6 == 3;
+        let long = i % 6 == 1;
+        let evict = i % 6 == 2;
+        let s = if long {
+            gen_long_script(&mut rng)
+        } else if evict {
+            gen_evict_script(&mut rng)
         } else {
-            vec![
-                ("old", catch_unwind(AssertUnwindSafe(|| build_old(&s))).unwrap_or(Err("panic".into()))),
-                ("new", catch_unwind(AssertUnwindSafe(|| build_new(&s, 4000))).unwrap_or(Err("panic".into()))),
-            ]
+            gen_script(&mut rng, big)
         };
+        let want = expected_items(&s);
+        let bufsize = if big { 40000 } else { 12000 };
+        let sides: Vec<(&str, Result<Vec<u8>, String>)> = vec![
+            ("old", catch_unwind(AssertUnwindSafe(|| build_old(&s))).unwrap_or(Err("panic".into()))),
+            ("new", catch_unwind(AssertUnwindSafe(|| build_new(&s, bufsize))).unwrap_or(Err("panic".into()))),
+        ];
         for (side, built) in sides {
             match built {
                 Ok(m) => {
